@@ -70,7 +70,7 @@ JudgeTest(line) ==
                     \A k \in 1 .. Len(line.cases) : CaseOk(line.prog, line.cases[k], o.cases[k])))
   \* test agrees with validate on the evaluated statuses (both observed from the implementation)
   /\ Relate(line.i, "test-vs-validate",
-            err \/ \A k \in 1 .. Len(line.cases) :
+            err \/ Len(o.cases) # Len(line.cases) \/ \A k \in 1 .. Len(line.cases) :
                      LET v == o.validate[k] IN
                      v.ok => \A i \in 1 .. Len(o.cases[k].failed) :
                                 LET n == o.cases[k].failed[i][1] IN
